@@ -6,7 +6,7 @@ use std::result::Result;
 use std::hash::Hasher;
 
 #[derive(Clone, Debug, PartialEq, Eq, Hash)]
-pub enum Op { Src, Buffer, Size, Rope, Writer(usize), Stream(bool, bool), Map(bool), Hash, Eq(usize), CloneCheck, CustomStream(bool, bool) }
+pub enum Op { Src, Buffer, Size, Rope, Writer(usize), Stream(bool, bool), Map(bool), Hash, Eq(usize), CloneCheck, CustomStream(bool, bool), StreamKeep(bool, bool) }
 
 #[derive(Clone, Debug, PartialEq, Eq, Hash)]
 pub enum Out {
@@ -61,6 +61,7 @@ pub fn run_op_impl(s: &(dyn Source + 'static), op: &Op) -> Out {
     Op::Rope => Out::Rope(Some(s.rope().to_bytes().to_vec())),
     Op::Writer(k) => { let mut w = FailWriter { budget: *k, written: vec![] }; let ok = s.to_writer(&mut w).is_ok(); Out::Writer(ok, w.written) }
     Op::Stream(c, f) => Out::Stream(run_stream(s, *c, *f)),
+    Op::StreamKeep(c, f) => Out::Stream(run_stream_keep(s, *c, *f)),
     Op::Map(c) => Out::Map(s.map(&MapOptions::new(*c)).map(|m| SMapT::of(&m))),
     Op::Hash => Out::Calls(rec_calls(s)),
     Op::Eq(_) => Out::Bad("Eq needs two trees".into()),
@@ -90,7 +91,7 @@ pub fn op_proto(name: &str, op: &Op) -> String {
     Op::Hash => format!("feed {name} 0"),
     Op::Eq(j) => format!("eq {name} A{j}"),
     Op::CloneCheck => format!("clonecheck {name}"),
-    Op::CustomStream(c, f) => format!("stream {name} {} {}", b(c), b(f)),
+    Op::CustomStream(c, f) | Op::StreamKeep(c, f) => format!("stream {name} {} {}", b(c), b(f)),
   }
 }
 
@@ -103,7 +104,7 @@ pub fn parse_out(op: &Op, resp: &str) -> Out {
     Op::Size | Op::Eq(_) | Op::CloneCheck => Out::Num(t.num()?),
     Op::Rope => match t.tok()? { "ok" => Out::Rope(Some(t.bytes()?)), _ => Out::Panic("charboundary: model".into()) },
     Op::Writer(_) => { let ok = t.num()? == 1; Out::Writer(ok, t.bytes()?) }
-    Op::Stream(..) | Op::CustomStream(..) => Out::Stream(t.sres()?),
+    Op::Stream(..) | Op::CustomStream(..) | Op::StreamKeep(..) => Out::Stream(t.sres()?),
     Op::Map(_) => Out::Map(t.opt(|t| t.smap())?),
   }))();
   match r { Ok(o) => o, Err(e) => Out::Bad(format!("{e}: {resp}")) }
